@@ -160,7 +160,7 @@ def work_template(t, L):
     p1, g1, q1, p2, g2, q2 = z3.Strings("p1 g1 q1 p2 g2 q2")
     # capture agreement; when the word-equation query does not finish at the requested length the bound is lowered
     # (the bound actually discharged is part of the obligation's key)
-    for bound in [b for b in (L, 12, 10) if b <= L]:
+    for bound in [b for b in (L, 12, 10, 8) if b <= L]:
         t0 = time.time()
         r, m = sol.check(z3.InRe(s, nonl), z3.Length(s) <= bound, s == z3.Concat(p1, g1, q1), s == z3.Concat(p2, g2, q2),
                          z3.InRe(p1, cb), z3.InRe(g1, cg), z3.InRe(q1, ca),
